@@ -120,7 +120,7 @@ func verifC02(nh, nn, patLen, hostLen int) {
 		verifScanIdx = append(verifScanIdx, int64(2)<<32|int64(10*i+3))
 	}
 	host := verifString("host", hostLen, hostAlpha)
-	dreq := &DNSRequest{Hostname: host, DNSType: verifU16("q.dnstype"), ClientName: verifString("q.client", 1, "ab")}
+	dreq := &DNSRequest{Hostname: host, DNSType: verifU16("q.dnstype"), ClientName: verifString("q.client", verifChoice("q.clientLen", 2), "ab")}
 
 	if verifBool("q.hasip") {
 		dreq.ClientIP = netip.AddrFrom4([4]byte{9, 9, 9, verifU8("q.ip")})
